@@ -327,7 +327,8 @@ func (i *Interpreter) ProcessRecv() error {
 			return errors.WithStack(err)
 		}
 	} else {
-		state = PASS
+		// Without vcl_recv Fastly's built-in subroutine runs, which ends with return(lookup)
+		state = LOOKUP
 	}
 
 	// When request is purge request the service processes vcl_recv subroutine only,
